@@ -38,6 +38,12 @@ def handle (line : String) : String :=
       let eb := int32ToBytes (BitVec.ofInt 32 y)
       s!"{hexOfBytes ea} {hexOfBytes eb} {b2s (lexLt ea eb)} {(uToInt32 (BitVec.ofNat 32 (ofBE ea))).toInt}"
     | _, _ => "bad-op"
+  | ["i16", a] =>
+    match a.toInt? with
+    | some x =>
+      let ea := int16ToBytes (BitVec.ofInt 16 x)
+      s!"{hexOfBytes ea} {(bytesToInt16 ea).toInt}"
+    | none => "bad-op"
   | ["f64", a, b] =>
     match bytesOfHex a, bytesOfHex b with
     | some x, some y =>
